@@ -171,6 +171,8 @@ def cases(c):
                     'kind': gen.pick(rng, KINDS), 'amp10': int(gen.pick(rng, [0, 0, 0, -3, -6, 3, 5, 6])), 'i': i})
         if i % 7 == 2 and not out[-1]['cplx']:
             out[-1].update(variant=gen.NARROW[(i // 7) % len(gen.NARROW)], amp10=0)     # wav / ADC samples
+        if not out[-1].get('amp10'):
+            gen.layout_variant(out[-1], i)
     # noiseless sums of p exponentials on an NFFT grid
     for i in range(200 if c.tier == 'quick' else 60000):
         p = int(rng.integers(1, 9))
